@@ -535,6 +535,9 @@ func (f *frame) alloc(n *node, elem types.Type, ptrT types.Type) Val {
 	}
 	z := x.zero(elem)
 	f.store(n, p, z, token.NoPos, "alloc")
+	if name, ok := isOpaque(elem); ok && name == "math/big.Int" {
+		f.bigStore(n, ref, "0") // the zero value of big.Int is 0
+	}
 	return p
 }
 
